@@ -98,6 +98,17 @@ Section SysP.
     result Ctx i (run Ctx sched st) = result Ctx i (run Ctx (alone Ctx i sched) st).
   Proof. intros. apply noninterference_gen; auto. intros x; reflexivity. Qed.
 
+  (* any two interleavings of the same per-thread step lists give every thread the same result *)
+  Theorem schedule_independence_lemma : forall (s1 s2 : list (nat * step)) (st : sys),
+    Forall (fun p => step_ok Ctx footprint (snd p)) s1 ->
+    Forall (fun p => step_ok Ctx footprint (snd p)) s2 ->
+    (forall i, alone Ctx i s1 = alone Ctx i s2) ->
+    forall i, result Ctx i (run Ctx s1 st) = result Ctx i (run Ctx s2 st).
+  Proof.
+    intros s1 s2 st H1 H2 E i.
+    rewrite (noninterference_lemma s1 st i H1), (noninterference_lemma s2 st i H2), (E i). reflexivity.
+  Qed.
+
   (* steps of different threads commute (observed on every context and on the shared contents) *)
   Theorem steps_commute_lemma : forall (st : sys) i j (s t : step),
     i <> j -> step_ok Ctx footprint s -> step_ok Ctx footprint t ->
